@@ -1,18 +1,118 @@
 """Per-property registry: which functions under contract carry it, bounded module, level, trusted base."""
 from .targets import T
 
+F = lambda k: T[k]  # noqa: E731
+A_DUCK = "A-DUCK: DuckDB 1.0 semantics of the statements it is given (storage, SQL semantics, transactions, errors)"
+A_SQLGLOT = "A-SQLGLOT: sqlglot 25.24.5 parser / generator / Expression API"
+A_WF = "A-WF: the transform pipeline hands _execute a statement whose bookkeeping arguments are well formed (assumed postcondition of FakeSnowflakeCursor._transform; exercised by the bounded tier)"
+
 PROPERTIES = {
+    "C03": {
+        "level": "proof",
+        "targets": [F("conn.FakeSnowflakeConnection.__init__"), F("instance.FakeSnow.connect"), F("conn.FakeSnowflakeConnection.cursor"), F("checks.is_unqualified_table_expression"),
+                    F("expr.key_command"), F("cursor.FakeSnowflakeCursor._transform"), F("cursor.FakeSnowflakeCursor._execute")],
+        "bounded": "bounded.C03",
+        "trusted_base": [A_DUCK, A_SQLGLOT, A_WF],
+        "explanation": "Deductive: connect establishes the session context (conn.database/schema, *_set flags and DuckDB's search path agree; own DuckDB cursor per connection); "
+        "_execute raises 90105/90106 (sqlstate 22000) exactly when the statement's first table needs a database/schema the session lacks, before anything is executed; USE DATABASE/SCHEMA update "
+        "the context only after DuckDB accepted the statement; every other statement leaves the context alone; USE and SHOW are resolved against this connection's database (pipeline arguments). "
+        "Bounded: USE/CREATE/DROP histories on two connections of one instance on the real stack.",
+        "not_decided_here": "that DuckDB resolves an unqualified name against the search path set by SET schema (A-DUCK); statements with several tables are classified by their first table only (known finding)",
+    },
+    "C04": {
+        "level": "proof",
+        "targets": [F("expr.key_command"), F("cursor.FakeSnowflakeCursor._execute")],
+        "bounded": "bounded.C04",
+        "trusted_base": [A_DUCK, A_SQLGLOT, A_WF],
+        "explanation": "Deductive: key_command classifies statements per the property's table; for INSERT/UPDATE/DELETE _execute reads DuckDB's affected-row count, instantiates the Snowflake status "
+        "row with it and sets rowcount to it (0 included); DDL status rows name the object with Snowflake's identifier normalisation; for queries rowcount is the number of result rows. "
+        "Bounded: DML histories with NULLs/duplicates against a Python reference on the real stack.",
+        "not_decided_here": "that DuckDB changes exactly the right rows (SQL semantics, A-DUCK): bounded tier only",
+    },
     "C05": {
         "level": "proof",
-        "targets": [T["fetchmany"], T["fetchone"], T["fetchall"]],
+        "targets": [F("cursor.FakeSnowflakeCursor.fetchmany"), F("cursor.FakeSnowflakeCursor.fetchone"), F("cursor.FakeSnowflakeCursor.fetchall"), F("cursor.FakeSnowflakeCursor.__init__"),
+                    F("conn.FakeSnowflakeConnection.cursor"), F("cursor.FakeSnowflakeCursor._execute"), F("cursor.FakeSnowflakeCursor.execute")],
         "bounded": "bounded.C05",
-        "trusted_base": [],
+        "trusted_base": [A_DUCK],
         "explanation": "Deductive: contracts on the real FakeSnowflakeCursor.fetchmany/fetchone/fetchall (source re-read from the repo on every run, "
         "symbolically executed, callee contracts only). fetchmany returns rows pos..pos+k-1 of the result table at full width "
         "(tuple element c == cell c, dict keyed by the column names), advances the position by k and changes nothing else; fetchone/fetchall are "
-        "proved against fetchmany's contract. Exactly-once / in-order / empty-for-ever for every call sequence follows by induction on the "
-        "sequence from these per-call contracts (position only grows by the number of rows requested, slices are taken at the position). "
+        "proved against fetchmany's contract; a new cursor has no result set (TypeError); _execute/execute replace table, position and rowcount completely. "
+        "Exactly-once / in-order / empty-for-ever for every call sequence follows by induction over the per-call contracts. "
         "Bounded (not counted as proof): every fetch sequence up to the stated length on the real DuckDB/pyarrow stack.",
         "not_decided_here": "that DuckDB's arrow result holds the statement's rows in result order (A-DUCK 6) and pyarrow's slice/to_pylist semantics (A-ARROW) are assumed, probed by the bounded tier only",
+    },
+    "C06": {
+        "level": "proof",
+        "targets": [F("types.describe_as_rowtype.<locals>.as_column_info"), F("types.describe_as_rowtype"), F("cursor.FakeSnowflakeCursor._describe_last_sql"), F("cursor.FakeSnowflakeCursor._execute")],
+        "bounded": "bounded.C06",
+        "trusted_base": [A_DUCK, A_SQLGLOT, A_WF],
+        "explanation": "Deductive: the DuckDB-type -> Snowflake rowtype table is proved against the property's table for every type of the (finite) domain, one entry per describe row in order; "
+        "_describe_last_sql modifies nothing reachable from the cursor or its connection and runs only on the connection's own DuckDB connection; "
+        "_execute leaves in _last_sql the statement whose result the cursor holds. Bounded: description vs describe() vs fetched Python values over statement kinds on the real stack.",
+        "not_decided_here": "that DESCRIBE of the kept statement text reports the types of the held result (A-DUCK)",
+    },
+    "C07": {
+        "level": "proof",
+        "targets": [F("cursor.FakeSnowflakeCursor._execute"), F("cursor.FakeSnowflakeCursor.execute"), F("variables.Variables.inline_variables"), F("cursor.FakeSnowflakeCursor._inline_variables"),
+                    F("conn.FakeSnowflakeConnection.close"), F("checks.is_unqualified_table_expression"), F("cursor.FakeSnowflakeCursor._log_sql")],
+        "bounded": "bounded.C07",
+        "trusted_base": [A_DUCK, A_SQLGLOT, A_WF],
+        "explanation": "Deductive: exceptional postconditions of _execute (BinderException -> 2043/02000, CatalogException -> 2003/42S02, ConnectionException -> DatabaseError 250002/08003, "
+        "context errors 90105/90106/22000, nothing else translated), session context unchanged on every translated error, result set reset; execute resets sqlstate first and sets it from every "
+        "ProgrammingError; an undefined variable is reported before anything is parsed or executed. Bounded: error codes and state-unchanged for missing/duplicate objects on the real stack.",
+        "not_decided_here": "which DuckDB exception class a given cause produces (A-DUCK 1): bounded tier only",
+    },
+    "C08": {
+        "level": "proof",
+        "targets": [F("cursor.FakeSnowflakeCursor._rewrite_with_params"), F("cursor.FakeSnowflakeCursor.execute"), F("cursor.FakeSnowflakeCursor.executemany"), F("cursor.FakeSnowflakeCursor._inline_variables"),
+                    F("conn.FakeSnowflakeConnection.__init__")],
+        "bounded": "bounded.C08",
+        "trusted_base": ["A-SFC: quote(escape(to_snowflake(v))) is a Snowflake literal denoting v", A_DUCK, A_SQLGLOT],
+        "explanation": "Deductive: with pyformat/format every parameter value is converted exactly once by the connector's own converter and substituted with %, the paramstyle read is the one stored "
+        "on the connection at connect; otherwise command and parameters pass through untouched to DuckDB; variables are inlined in the command text only and before parameters are substituted; "
+        "executemany executes once per parameter set, in order. Bounded: adversarial values x paramstyles round trip on the real stack.",
+        "not_decided_here": "that the quoted literal denotes the value and cannot terminate itself (A-SFC): bounded tier only",
+    },
+    "C13": {
+        "level": "proof",
+        "targets": [F("instance.FakeSnow.connect"), F("conn.FakeSnowflakeConnection.cursor"), F("conn.FakeSnowflakeConnection.commit"), F("conn.FakeSnowflakeConnection.rollback"),
+                    F("cursor.FakeSnowflakeCursor._execute"), F("conn.FakeSnowflakeConnection.__init__")],
+        "bounded": "bounded.C13",
+        "trusted_base": [A_DUCK],
+        "explanation": "Deductive (fakesnow-side obligations only): each connect gets its own DuckDB connection object and all cursors of a connection share it; COMMIT/ROLLBACK outside a transaction end "
+        "normally with the success status and every other transaction error propagates; conn.commit()/rollback() execute exactly COMMIT/ROLLBACK; every statement of a call runs on the cursor's own "
+        "DuckDB connection. Atomicity, isolation and visibility at COMMIT are DuckDB's (assumed). Bounded: statement-level interleavings of two connections on the real stack.",
+        "not_decided_here": "atomicity / isolation / visibility (DuckDB MVCC, A-DUCK 4): bounded tier only",
+    },
+    "C14": {
+        "level": "proof",
+        "targets": [F("conn.FakeSnowflakeConnection.__init__"), F("instance.FakeSnow.connect")],
+        "bounded": "bounded.C14",
+        "trusted_base": [A_DUCK],
+        "explanation": "Deductive: FakeSnowflakeConnection.__init__ never raises, attaches the database / creates the schema exactly when the options allow and the object is missing, touches no other "
+        "catalog object, sets database_set/schema_set exactly when the objects exist afterwards, reports upper-cased names, bootstraps a new database and names its file as db_file(db_path, NAME); "
+        "FakeSnow.connect forwards the instance's options. Bounded: the complete product of configurations on the real stack.",
+        "not_decided_here": "meaning of the seven SQL templates of connect (A-DUCK 3): matched syntactically, exercised by the bounded product",
+    },
+    "C16": {
+        "level": "proof",
+        "targets": [F("cursor.FakeSnowflakeCursor.execute"), F("cursor.FakeSnowflakeCursor._execute"), F("conn.FakeSnowflakeConnection.__init__")],
+        "bounded": "bounded.C16",
+        "trusted_base": [A_DUCK, A_SQLGLOT, "A-PY re.match"],
+        "explanation": "Deductive: when execute takes the no-op path nothing is parsed or transformed and exactly the success select runs, and that path exists only when nop_regexes is configured; "
+        "the connection keeps the configured patterns. execute_string (a filtered comprehension with effects) is outside the verifier's subset: decided by the bounded tier only "
+        "(execute_string(text) against one-by-one execution; nop patterns that do / do not match).",
+        "not_decided_here": "execute_string (bounded only); that re.match decides 'matches at the start' (A-PY)",
+    },
+    "C20": {
+        "level": "proof",
+        "targets": [F("cli.split")],
+        "bounded": "bounded.C20",
+        "trusted_base": ["A-PY argparse for the parser built by arg_parser()"],
+        "explanation": "Deductive: cli.split cuts the argument list exactly after the target spec for every argument list in the property's domain (loop invariant against a recursive scanner "
+        "specification taken from fakesnow's option table). patch() (a generator-based context manager using mock.patch) is outside the verifier's subset: bounded only.",
+        "not_decided_here": "patch() restore behaviour and cli.main wiring: bounded tier only",
     },
 }
